@@ -23,6 +23,7 @@ import math
 from . import facts, guards as G, term as T, common, poly as P, teval
 
 PLAT = "retrofire_geom::solids::platonic::"
+PLATONIC = ("Tetrahedron", "Box", "Octahedron", "Dodecahedron", "Icosahedron")
 LATHE = "retrofire_geom::solids::lathe::"
 
 
@@ -103,6 +104,41 @@ def build_mesh(prog, body, params=None):
     return faces, verts, log
 
 
+def build_mesh_cp(prog, body, name, box=(0.0, 1.0)):
+    """(faces, verts, log) of a platonic build() by constant propagation (sa/constfold.py): the function has no inputs besides
+    the constant tables (Box: evaluated for the unit box), so the constant store at its return point is the mesh itself.
+    Follows helpers, iterator chains and push_faces/push_verts alike."""
+    from . import constfold as CF, absint as A
+    it = CF.interp(prog)
+    args = []
+    if body.argc:
+        adt = (prog.adts.get(PLAT + name) or {}).get("variants") or [{}]
+        fields = adt[0].get("fields") or []
+        pt = lambda x: ("adt", "retrofire_core::math::point::Point", "Point",  # noqa: E731
+                        [("array", [("f", v_) for v_ in (x if isinstance(x, tuple) else (x, x, x))]), ("adt", "core::marker::PhantomData", "PhantomData", [])])
+        vals = {"left_bot_near": pt(box[0]), "right_top_far": pt(box[1])}
+        if any(f not in vals for f in fields):
+            raise teval.CannotEval("%s has a field the rule has no sample value for (%s)" % (name, fields))
+        args = [("adt", PLAT + name, name, [vals[f] for f in fields])]
+    r = it.call_body(body, args)
+    r = A.deref_all(it, r)
+    mesh = (prog.adts.get("retrofire_core::geom::mesh::Mesh") or {}).get("variants") or [{}]
+    mf = mesh[0].get("fields") or []
+    if not (isinstance(r, tuple) and r[0] == "adt" and r[2] == "Mesh" and "faces" in mf and "verts" in mf):
+        raise teval.CannotEval("build() did not fold to a Mesh constant (%r)" % (str(r)[:80],))
+    fs, vs = A.deref_all(it, r[3][mf.index("faces")]), A.deref_all(it, r[3][mf.index("verts")])
+    vx = (prog.adts.get("retrofire_core::geom::Vertex") or {}).get("variants") or [{}]
+    vf = vx[0].get("fields") or []
+    faces, verts = [], []
+    for f in fs[1]:
+        idx = CF.floats_of(it, f)
+        faces.append(tuple(int(x) for x in idx))
+    for v in vs[1]:
+        v = A.deref_all(it, v)
+        verts.append((CF.floats_of(it, v[3][vf.index("pos")]), CF.floats_of(it, v[3][vf.index("attrib")])))
+    return faces, verts, ["constant propagation through %s::build: %d faces, %d vertices" % (name, len(faces), len(verts))]
+
+
 # ---------------------------------------------------------------- geometry
 
 def sub(a, b):
@@ -180,15 +216,27 @@ def mesh_rules(rep, name, faces, verts, where, cfg, expect_euler=2):
 
 def platonic_rules(rep, prog):
     cfg = prog.config
-    for name in ("Tetrahedron", "Box", "Octahedron", "Dodecahedron", "Icosahedron"):
+    for name in PLATONIC:
         body = prog.body(PLAT + name + "::build")
         params = {}
         if name == "Box":
             params = {1: {"left_bot_near": {"0": [0.0, 0.0, 0.0]}, "right_top_far": {"0": [1.0, 1.0, 1.0]}}}
+        from . import absint as A
         try:
-            faces, verts, log = build_mesh(prog, body, params)
-        except (teval.CannotEval, IndexError, KeyError, TypeError) as e:
-            raise common.Infra("C15.T2: the recipe of %s::build could not be reconstructed from its terms (%r); rule needs re-confirmation" % (name, e))
+            faces, verts, log = build_mesh_cp(prog, body, name)
+            if name == "Box":
+                # a second, generic box: orientation, closedness and unit normals must not depend on the corner values
+                f2, v2, _l2 = build_mesh_cp(prog, body, name, box=((-1.0, -2.5, -3.0), (2.0, 5.0, 7.5)))
+                mesh_rules(rep, "Box[generic corners]", f2, v2, body.where(), cfg)
+        except A.Panic as e:
+            rep.violate("C15.T2", "T2|%s|panics" % name, body.where(), "%s::build() panics on its own tables (%s)" % (name, e), config=cfg)
+            continue
+        except (A.Undecided, teval.CannotEval, IndexError, KeyError, TypeError, ValueError) as e1:
+            # the older two-loop recipe reconstruction as a second opinion
+            try:
+                faces, verts, log = build_mesh(prog, body, params)
+            except (teval.CannotEval, IndexError, KeyError, TypeError) as e:
+                raise common.Infra("C15.T2: %s::build could be folded neither by constant propagation (%s) nor by recipe reconstruction (%r); rule needs re-confirmation" % (name, str(e1)[:200], e))
         for l in log:
             rep.inst("C15.T2", "%s recipe: %s" % (name, l), config=cfg)
         mesh_rules(rep, name, faces, verts, body.where(), cfg)
@@ -267,6 +315,42 @@ def is_unit_term(prog, t, depth=0, assume=()):
     return False
 
 
+def unit_in_context(prog, body, t, depth=0):
+    """is_unit_term, continued across a closure capture or a parameter of a private helper:
+    a captured value is looked up where the closure is built; a parameter of a non-pub function
+    is UNIT when every call site in the program passes a UNIT value (at least one site)."""
+    u = is_unit_term(prog, t)
+    if u is not False or depth > 4:
+        return u
+    core = T.strip(t, refs=True)
+    while core[0] == "call" and core[1].split(" => ")[0].endswith(("Clone::clone", "::to")):
+        core = T.strip(core[2][0], refs=True)
+    if core[0] == "upvar":
+        from .render_common import capture_terms
+        sl = T.Slicer(body)
+        parent = prog.bodies.get(body.parent)
+        caps = capture_terms(prog, body) if parent is not None else {}
+        for idx, (n, _r) in sl.upvars().items():
+            if n == core[1] and idx in caps:
+                return unit_in_context(prog, parent, caps[idx], depth + 1)
+        return False
+    if core[0] == "param" and not body.is_pub and body.kind in ("Fn", "AssocFn"):
+        k = core[1]
+        sites = []
+        for cb in prog.bodies.values():
+            for bi, ct in cb.calls(lambda c: prog.lookup(c["path"]) is body):
+                sites.append((cb, ct))
+        if not sites:
+            return False
+        for cb, ct in sites:
+            if k - 1 >= len(ct["args"]):
+                return False
+            if unit_in_context(prog, cb, T.Slicer(cb).operand(ct["args"][k - 1]), depth + 1) is not True:
+                return False
+        return True
+    return False
+
+
 def normal_rules(rep, prog):
     cfg = prog.config
     sites = 0
@@ -274,9 +358,49 @@ def normal_rules(rep, prog):
         if not b.path.startswith("retrofire_geom::solids::"):
             continue
         sl = T.Slicer(b)
+        t2_decides = any(b.path.startswith(PLAT + n + "::build") for n in PLATONIC)
+        cands = []
         for bi, t in b.calls(lambda c: facts.callee_matches(c, "mesh::Builder::<A>::push_vert", "retrofire_core::geom::vertex")):
-            is_pv = "push_vert" in t["callee"]["path"]
-            nt = sl.operand(t["args"][2 if is_pv else 1])
+            if "push_verts" in t["callee"]["path"]:
+                # the items are (position, normal) pairs produced by closures of the iterator chain handed over
+                src = sl.operand(t["args"][1])
+                seen_c = set()
+
+                def closures_in(x, acc):
+                    if isinstance(x, tuple):
+                        if x and x[0] == "agg" and isinstance(x[1], str) and x[1].startswith("closure:"):
+                            acc.append(x[1][8:])
+                        for y in x:
+                            closures_in(y, acc)
+                work = []
+                closures_in(src, work)
+                found = False
+                while work:
+                    cp = work.pop()
+                    if cp in seen_c or cp not in prog.bodies:
+                        continue
+                    seen_c.add(cp)
+                    cb = prog.bodies[cp]
+                    csl = T.Slicer(cb)
+                    rt = T.strip(csl.local(0), refs=True)
+                    if rt[0] == "agg" and rt[1] == "tuple" and len(rt[2]) == 2:
+                        cands.append((cb, csl, 0, rt[2][1]))
+                        found = True
+                    closures_in(rt, work)
+                    for _cbi, ct in cb.calls(lambda c: True):
+                        for a in ct["args"]:
+                            closures_in(csl.operand(a), work)
+                if not found:
+                    cands.append((b, sl, bi, ("unknown-item", T.show(src)[:80])))
+                continue
+            cands.append((b, sl, bi, ("site", t)))
+        for cb_, csl_, bi, what in cands:
+            if what[0] == "site":
+                t = what[1]
+                is_pv = "push_vert" in t["callee"]["path"]
+                nt = csl_.operand(t["args"][2 if is_pv else 1])
+            else:
+                is_pv, t, nt = True, None, what
             if not is_pv:
                 # only vertex(_, n) with a 3-D normal that ends up in a mesh: restrict to calls
                 # whose attribute type is a 3-vector (Normal3)
@@ -286,10 +410,12 @@ def normal_rules(rep, prog):
                 if "Real<2" in ga.split("Vector")[-1]:
                     continue
             sites += 1
-            u = is_unit_term(prog, nt)
-            rep.inst("C15.D6", "%s at %s: normal %s has UNIT provenance: %s" % (b.path.split("solids::")[1], b.where(bi, None), T.show(nt)[:140], u if u is not None else "decided by T2"), config=cfg)
+            u = unit_in_context(prog, cb_, nt) if nt[0] != "unknown-item" else False
+            if u is False and t2_decides:
+                u = None    # an input-free platonic recipe: T2 measures every normal of the folded mesh
+            rep.inst("C15.D6", "%s at %s: normal %s has UNIT provenance: %s" % (cb_.path.split("solids::")[1], cb_.where(bi, None), T.show(nt)[:140], u if u is not None else "decided by T2"), config=cfg)
             if u is False:
-                rep.violate("C15.D6", "D6|%s" % b.path, b.where(bi, None),
+                rep.violate("C15.D6", "D6|%s" % cb_.path, cb_.where(bi, None),
                             "vertex normal %s is neither normalised, a unit literal/table entry, nor a rotation of one" % T.show(nt)[:200], config=cfg)
     rep.floor("C15.D6.sites", sites, 7, "normal-carrying vertex constructions in geom::solids")
 
@@ -314,9 +440,11 @@ def build_rules(rep, prog):
 
 def lathe_rules(rep, prog):
     cfg = prog.config
-    b = prog.body(LATHE + "Lathe::build")
+    # helpers of the same module (a push_cap(.., flip) say) are inlined; arms made dead by a literal flag are not sites
+    b = prog.inlined(prog.body(LATHE + "Lathe::build"), depth=2, pred=lambda cb: cb.path.startswith(LATHE))
     sl = T.Slicer(b)
-    pf = [(bi, t) for bi, t in b.calls(lambda c: facts.callee_matches(c, "mesh::Builder::<A>::push_face"))]
+    live = set(b.reachable(0))
+    pf = [(bi, t) for bi, t in b.calls(lambda c: facts.callee_matches(c, "mesh::Builder::<A>::push_face")) if bi in live]
     rep.floor("C15.L1.push_face", len(pf), 4, "push_face sites in Lathe::build (2 strip + 2 cap)")
     loops = loops_of(b, sl)
 
